@@ -460,8 +460,11 @@ def compute_dynamics_with_field(
 
     system_states_list.append(final_state_list)
 
-    final_field = compute_field(t_previous, dt, previous_state_list, field,
-                                final_state_list)
+    if num_steps == 0:
+        final_field = initial_field
+    else:
+        final_field = compute_field(t_previous, dt, previous_state_list, field,
+                                    final_state_list)
     field_list.append(final_field)
 
     prog_bar.update(num_steps)
